@@ -5,6 +5,7 @@
 // `include!("_miniwriter.rs")` inside a harness module; everything is addressed by absolute paths so the
 // including module needs no particular `use` lines.
 
+#[allow(dead_code)]
 pub(crate) struct MiniWriter {
     pub buf: [u8; 32],
     pub len: usize,
@@ -15,6 +16,7 @@ pub(crate) struct MiniWriter {
     pub pn: u64,
 }
 
+#[allow(dead_code)]
 impl MiniWriter {
     /// writer with a symbolic capacity (0..=32 bytes), a symbolic transmission constraint and packet number
     pub(crate) fn any() -> Self {
